@@ -105,9 +105,11 @@ def emit (s : State) (ev : Ev) : State := { s with events := s.events ++ [ev] }
 def notify (s : State) (n : Note) : State := { s with notes := s.notes ++ [n] }
 def logQuery (s : State) (q : Query) : State := { s with compQueries := s.compQueries ++ [q] }
 def logId (s : State) (c : IdCall) : State := { s with idCalls := s.idCalls ++ [c] }
+/-- the call `c` delivered to each module of `ms`, in that order -/
+def callsTo (ms : List Nat) (c : ModCall) : List (Nat × ModCall) := ms.map (fun m => (m, c))
 /-- the modules `ms` each receive the call `c`, in that order -/
 def logMods (s : State) (ms : List Nat) (c : ModCall) : State :=
-  { s with modCalls := s.modCalls ++ ms.map (fun m => (m, c)) }
+  { s with modCalls := s.modCalls ++ callsTo ms c }
 
 /-- `if cond { panic_with_error!(..) }` as a guard: passes iff `c` holds -/
 def check (c : Prop) [Decidable c] (e : Err) : Except Err Unit := if c then .ok () else .error e
@@ -466,6 +468,22 @@ def Op.owedNotes (s : State) : Op → List Note
   | .mint to a _ => [.created to a]
   | .burn x a _ => [.destroyed x a]
   | .recover old new _ => if s.base.bal old = 0 then [] else [.transferred old new (s.base.bal old)]
+  | _ => []
+
+/-- the calls the compliance MODULES receive from an operation that succeeds from state `s`:
+the verdict modules consulted (holder moves and mint: all registered ones, since all must
+approve), then one hook call to every module registered for the notification hook -/
+def Op.owedModCalls (s : State) : Op → List (Nat × ModCall)
+  | .transfer f t a =>
+    callsTo (compCanTransfer s f t a).1 (.canTransfer f t a) ++ callsTo (s.mods .transferred) (.onTransfer f t a)
+  | .transferFrom _ f t a =>
+    callsTo (compCanTransfer s f t a).1 (.canTransfer f t a) ++ callsTo (s.mods .transferred) (.onTransfer f t a)
+  | .forcedTransfer f t a _ => callsTo (s.mods .transferred) (.onTransfer f t a)
+  | .mint to a _ =>
+    callsTo (compCanCreate s to a).1 (.canCreate to a) ++ callsTo (s.mods .created) (.onCreated to a)
+  | .burn x a _ => callsTo (s.mods .destroyed) (.onDestroyed x a)
+  | .recover old new _ =>
+    if s.base.bal old = 0 then [] else callsTo (s.mods .transferred) (.onTransfer old new (s.base.bal old))
   | _ => []
 
 /-- replay of the token's mint / burn / transfer events -/
